@@ -109,16 +109,29 @@ func c11Run(c *Ctx, cs c11Case) {
 				return
 			}
 			r.Count("refused_registrations_then_retry", 1)
-			if err := k.ch.RegisterEEDHooks(eedFns...); err != nil {
+			// the argument slice belongs to the caller: afterwards it is
+			// overwritten with a hook that must never be called, and
+			// appended to (it has spare capacity)
+			arg := make([]tds.EEDHook, len(eedFns), len(eedFns)+4)
+			copy(arg, eedFns)
+			if err := k.ch.RegisterEEDHooks(arg...); err != nil {
 				r.Violate("register-hook-failed", err.Error(), cs)
 				return
 			}
+			for i := range arg {
+				arg[i] = func(tds.EEDPackage) { emit("poison-eed") }
+			}
+			_ = append(arg, func(tds.EEDPackage) { emit("poison-eed") })
 		} else {
 			for _, f := range eedFns {
-				if err := k.ch.RegisterEEDHooks(f); err != nil {
+				arg := make([]tds.EEDHook, 1, 3)
+				arg[0] = f
+				if err := k.ch.RegisterEEDHooks(arg...); err != nil {
 					r.Violate("register-hook-failed", err.Error(), cs)
 					return
 				}
+				arg[0] = func(tds.EEDPackage) { emit("poison-eed") }
+				_ = append(arg, func(tds.EEDPackage) { emit("poison-eed") })
 			}
 		}
 		if len(envFns) >= 2 && (ri+len(envFns))%2 == 1 {
@@ -128,16 +141,26 @@ func c11Run(c *Ctx, cs c11Case) {
 				return
 			}
 			r.Count("refused_registrations_then_retry", 1)
-			if err := k.ch.RegisterEnvChangeHooks(envFns...); err != nil {
+			arg := make([]tds.EnvChangeHook, len(envFns), len(envFns)+4)
+			copy(arg, envFns)
+			if err := k.ch.RegisterEnvChangeHooks(arg...); err != nil {
 				r.Violate("register-hook-failed", err.Error(), cs)
 				return
 			}
+			for i := range arg {
+				arg[i] = func(tds.EnvChangeType, string, string) { emit("poison-env") }
+			}
+			_ = append(arg, func(tds.EnvChangeType, string, string) { emit("poison-env") })
 		} else {
 			for _, f := range envFns {
-				if err := k.ch.RegisterEnvChangeHooks(f); err != nil {
+				arg := make([]tds.EnvChangeHook, 1, 3)
+				arg[0] = f
+				if err := k.ch.RegisterEnvChangeHooks(arg...); err != nil {
 					r.Violate("register-hook-failed", err.Error(), cs)
 					return
 				}
+				arg[0] = func(tds.EnvChangeType, string, string) { emit("poison-env") }
+				_ = append(arg, func(tds.EnvChangeType, string, string) { emit("poison-env") })
 			}
 		}
 		mu.Lock()
@@ -625,6 +648,11 @@ func runC11(c *Ctx) {
 	r.TrustedBase = []string{"harness/srv encoder", "event log with one atomic sequence counter: hooks log inside the reader before a later package is queued, the consumer logs after receiving"}
 	r.Assumptions = []string{"on callback failure the error may carry the messages received before the failing package, optionally followed by later ones of the same response (both readings of 'received so far' accepted)", "one NextPackageUntil call per response"}
 	if c.Replay != nil {
+		var dc c11DrainCase
+		if json.Unmarshal(c.Replay, &dc) == nil && dc.Drain != "" {
+			c11DrainRun(c, dc)
+			return
+		}
 		var cs c11Case
 		if err := json.Unmarshal(c.Replay, &cs); err != nil {
 			r.Inconclusive("bad replay: %v", err)
@@ -633,6 +661,7 @@ func runC11(c *Ctx) {
 		c11Run(c, cs)
 		return
 	}
+	runC11Drain(c)
 	n := 5000
 	if !c.Quick() {
 		n = 400000
